@@ -609,7 +609,10 @@ theorem step_abs (u : List Nat) (s s' : Sys) (l : Label) (h : step s l = some s'
     · injection h with h; subst h
       exact spawnApi_abs _ s _ _ (by simp) (AStep.note' (ev := .apiOpen s.core.now) rfl)
     · injection h with h; subst h
-      refine spawnApi_abs _ s _ _ ?_ (AStep.note' (ev := .apiOpen s.core.now) rfl)
+      -- a socket that was not open starts its new session with an empty queue (`_message_queue.clear()`)
+      have h0 : AStep (abs u s) ⟨u, s.core.now, s.core.queue, s.core.trace ++ [.apiOpen s.core.now], flOf s.tasks⟩ :=
+        AStep.note' rfl
+      refine spawnApi_abs _ s _ _ ?_ (h0.trans (AStep.dropQ' (List.nil_sublist _)))
       intro p hp; simp only [List.mem_singleton] at hp; subst hp; rfl
   | apiClose =>
     simp only [step] at h
